@@ -25,6 +25,7 @@ EXPLANATION = (
     "U+FEFF (or nothing) under its paired codec. OHLCV aggregation arithmetic is not claimed."
     " C19.2 also: every flush consumes the skip-first-bar flag."
     " C19.2 also: every feeder of push_trade passes the trade's own timestamp."
+    " C19.2 also: both window edges advance by increments of the bar duration (a window re-derived from the clock each iteration skips windows after a late flush)."
 )
 TRUSTED = ["CPython ast parser", "sa.absint weak-ordering interpreter", "stdlib codecs constants",
            "datetime has microsecond resolution"]
